@@ -243,4 +243,45 @@ theorem testBit_alignToByte (opu : Nat → Nat) (G : Nat → Bool → Bool)
     · have : ¬ (off ≤ i ∧ i < off + min (8 - off % 8) rem) := by omega
       simp [h1, h2, this]
 
+theorem testBit_alignedUnOp (opu : Nat → Nat) (g : Bool → Bool)
+    (hop : ∀ a j, j < 64 → (opu a).testBit j = g (a.testBit j))
+    (d dofs len i : Nat) (hd : dofs % 8 = 0) :
+    (alignedUnOp opu d dofs len).testBit i =
+      if dofs ≤ i ∧ i < dofs + len then g (d.testBit i) else d.testBit i := by
+  have hb : 8 * (dofs / 8) = dofs := by omega
+  have hrem : len % 64 < 64 := Nat.mod_lt _ (by decide)
+  have hz : ∀ t, (zipModify (fun a _ => opu a) (dofs / 8) 0 (List.replicate (len / 64) 0) d).testBit t =
+      if dofs ≤ t ∧ t < dofs + 64 * (len / 64) then g (d.testBit t) else d.testBit t := by
+    intro t
+    rw [testBit_zipModify (fun a _ => opu a) (fun a _ => g a) (fun a _ j hj => hop a j hj)]
+    simp only [List.length_replicate, Nat.mul_zero, Nat.add_zero, hb]
+  unfold alignedUnOp
+  simp only
+  by_cases hr : len % 64 > 0
+  · simp only [hr, if_true]
+    rw [testBit_setRemainderBits _ _ _ _ _ hr hrem]
+    have e8 : 8 * (dofs / 8 + 8 * (len / 64)) = dofs + 64 * (len / 64) := by omega
+    rw [e8]
+    by_cases c : dofs + 64 * (len / 64) ≤ i ∧ i < dofs + 64 * (len / 64) + len % 64
+    · have c' : dofs ≤ i ∧ i < dofs + len := by omega
+      have j1 : i - (dofs + 64 * (len / 64)) < 64 := by omega
+      have j2 : i - (dofs + 64 * (len / 64)) < len % 64 := by omega
+      simp only [c, c', and_self, if_true]
+      rw [testBit_u64, hop _ _ j1, testBit_getRemainderBits _ _ _ _ hrem, e8, hz]
+      have n1 : ¬ (dofs ≤ i ∧ i < dofs + 64 * (len / 64)) := by omega
+      have e1 : dofs + 64 * (len / 64) + (i - (dofs + 64 * (len / 64))) = i := by omega
+      simp [j1, j2, n1, e1]
+    · simp only [c, if_false]
+      rw [hz]
+      by_cases c2 : dofs ≤ i ∧ i < dofs + 64 * (len / 64)
+      · have c' : dofs ≤ i ∧ i < dofs + len := by omega
+        simp [c2, c']
+      · have c' : ¬ (dofs ≤ i ∧ i < dofs + len) := by omega
+        simp [c2, c']
+  · simp only [hr, if_false]
+    rw [hz]
+    have : len = 64 * (len / 64) := by omega
+    rw [← this]
+
+
 end ArrowModel.C19
